@@ -15,6 +15,15 @@ CHECKS = {
             'select/iter_select/Selector forms are compared with the documented projection. Held on the cases executed.',
             'Trusted: rv/models/xdm.py, libxml2 via lxml 6.1.3; absolute paths only on trees with a document node; namespace-node order unconstrained.',
             'DESIGN.md section 4 (C01)'),
+    'C02': ('exploration',
+            'invariant-at-a-quiescent-point monitor on the built node tree + set-model monitor of the identity/order operators',
+            'For every generated (document, tree library, root kind, fragment, namespaces argument, order of materialising the lazy '
+            'namespace/attribute nodes) the built XPath node tree is walked against the neutral document spec: one node per '
+            'element/attribute/in-scope namespace/comment/PI/text chunk, parent/children links, wrapped objects and the elements map, '
+            'unique strictly increasing positions (element < its namespace nodes < its attributes < its children), iter() order, string '
+            'values; then is, <<, >>, union, intersect, except, root, innermost, outermost on nodes of that tree are compared with the set model.',
+            'Trusted: rv/gen_xml.py spec and twin builders, rv/models/xdm.py; relative order among the namespace nodes of one element unconstrained.',
+            'DESIGN.md section 4 (C02)'),
     'C06': ('exploration',
             'runtime reference-model monitor: exact-rational / IEEE model of F&O arithmetic over a boundary-value cross product',
             'All six binary operators over the 4x4 numeric type matrix, unary +/-, abs/floor/ceiling/round/round-half-to-even with '
